@@ -120,10 +120,16 @@ Fixpoint columns (n : nat) (rows : list bytes) : list bytes :=
   | S n' => map (fun r => hd 0 r) rows :: columns n' (map (@tl N) rows)
   end.
 
+(** the eight vectors fed by one byte position; [AddBloom] skips a zero byte
+    ([if bloomByte == 0 { continue }]), so a position where every bloom of the section has a zero
+    byte leaves its eight vectors as allocated ([make([]byte, sections/8)]) *)
+Definition col_vectors (col : bytes) : list bytes :=
+  if forallb (N.eqb 0) col then repeat (repeat 0 (Nat.div (length col) 8)) 8
+  else map (fun t => pack8 (map (fun x => N.testbit x t) col)) (nseq 0 8).
+
 (** all [BloomBitLength] vectors of a section, vector [8*byt+t] at index [8*byt+t] *)
 Definition gen_vectors (blooms : list bloom) : list bytes :=
-  flat_map (fun col => map (fun t => pack8 (map (fun x => N.testbit x t) col)) (nseq 0 8))
-           (rev (columns (N.to_nat BloomByteLength) blooms)).
+  flat_map col_vectors (rev (columns (N.to_nat BloomByteLength) blooms)).
 
 (** * 3. bitutil.CompressBytes / DecompressBytes *)
 
@@ -228,13 +234,12 @@ Definition decompress_bytes (data : bytes) (target : nat) : option bytes :=
 
 (** * 4. The block store records *)
 
-Definition kvstore := list (bytes * bytes).
-Fixpoint kv_get (s : kvstore) (k : bytes) : option bytes :=
-  match s with
-  | [] => None
-  | (k', v) :: r => if bytes_eqb k k' then Some v else kv_get r k
-  end.
-Definition kv_put (s : kvstore) (k v : bytes) : kvstore := (k, v) :: s.
+(** The LevelDB key space: a finite map on byte strings, kept as a trie over an injective numbering
+    of byte strings (little-endian digits with a terminating 1; Proofs/BloomStore.v: [key_pos_inj]). *)
+Definition kvstore := PositiveMap.t bytes.
+Definition key_pos (k : bytes) : positive := N.succ_pos (le_decode (k ++ [1])).
+Definition kv_get (s : kvstore) (k : bytes) : option bytes := PositiveMap.find (key_pos k) s.
+Definition kv_put (s : kvstore) (k v : bytes) : kvstore := PositiveMap.add (key_pos k) v s.
 
 Definition be_encode (w : nat) (v : N) : bytes := rev (le_encode w v).
 
@@ -254,7 +259,7 @@ Record bstate := BState {
   cache : PositiveMap.t bloom       (* BlockStore.bloomCache *)
 }.
 
-Definition init_state : bstate := BState 0 None None [] (PositiveMap.empty bloom).
+Definition init_state : bstate := BState 0 None None (PositiveMap.empty bytes) (PositiveMap.empty bloom).
 
 Definition zN (f : Z) : N := Z.to_N f.
 Definition SZ : Z := Z.of_N BloomBitsBlocks.
